@@ -36,5 +36,5 @@ TokensLoc == { B(""), B("en"), B("und"), B("Latn"), B("US"), B("valencia"), B("1
 TokensLocTiny == { B("en"), B("u"), B("t"), B("x"), B("foo"), B("ca"), B("h0") }
 
 TokensLocSmall == { B(""), B("en"), B("Latn"), B("US"), B("valencia"), B("u"), B("t"), B("x"),
-                    B("a"), B("foo"), B("true"), B("ca"), B("h0"), B("k0"), B("toolongxx") }
+                    B("a"), B("foo"), B("true"), B("TRUE"), B("ca"), B("h0"), B("k0"), B("toolongxx") }
 =============================================================================
